@@ -270,6 +270,31 @@ func (w *Worker) account(c *SimCase, st *CaseStats) {
 	if w.hashes != nil {
 		fmt.Fprintf(w.hashes, "P %s\n", hashStr(c.Src))
 	}
+	if c.RenInfo != nil {
+		o.Extra["ren_colliding_binder_spellings"] += c.RenInfo.Collisions
+		if c.RenInfo.Collisions > 0 {
+			o.Extra["ren_cases_with_collisions"]++
+		}
+		if c.RenInfo.Permuted {
+			o.Extra["ren_declarations_permuted"]++
+		}
+		if c.RenInfo.FuncsRen > 0 {
+			o.Extra["ren_functions_renamed"]++
+		}
+		if c.RenInfo.TypesRen > 0 {
+			o.Extra["ren_types_renamed"]++
+		}
+		if c.RenInfo.BranchesRen > 0 {
+			o.Extra["ren_branch_labels_renamed"]++
+		}
+		if len(c.RenInfo.Labels) > 0 {
+			o.Extra["ren_print_labels_renamed"]++
+		}
+		o.Runs += len(st.TwinRuns)
+	}
+	if c.Mutated != "" {
+		o.Extra["mutants_accepted_and_run"]++
+	}
 	for i, r := range st.Runs {
 		o.Runs++
 		cfg := c.Runs[i]
@@ -340,7 +365,7 @@ func (w *Worker) SimProperty(prop string, draw func(Chooser, string) *SimCase) f
 		} else {
 			w.Out.ShrinkRuns++
 		}
-		if st.Rejected {
+		if st.Rejected && len(vs) == 0 {
 			return
 		}
 		var fail *Violation
@@ -485,7 +510,7 @@ func RunWorker(t *testing.T) {
 		var msgs []string
 		var trouble string
 		switch prop {
-		case "C01", "C02", "C03", "C04":
+		case "C01", "C02", "C03", "C04", "C14":
 			msgs, trouble = rapidRound(seed, perRound, w.SimProperty(prop, DrawSimCase))
 		default:
 			if f, ok := extraProps[prop]; ok {
